@@ -95,7 +95,13 @@ def absR (q : Rat) : Rat := if q < 0 then -q else q
 
 /-- the set of integers the implementation may store for the exact quotient `q` when the quotient and the
     `+0.5F` are computed in binary32: all `n` with `|n - q| ≤ 1/2 + 2⁻²²(|q|+1)`; printed `n` or `lo..hi` -/
-def fmtIntInterval (q : Rat) : String :=
+def isPow2 (n : Nat) : Bool := n != 0 && (n &&& (n - 1)) == 0
+
+/-- is the scale factor a power of two (then binary32 division and the `+0.5F` are exact for |q| < 2²²) -/
+def exactScale (s : Rat) : Bool := (s.num == 1 || s.num == -1 || s.den == 1) && isPow2 s.num.natAbs && isPow2 s.den
+
+def fmtIntInterval (exact : Bool) (q : Rat) : String :=
+  if exact && absR q < 4194304 then toString (roundHalfAway q) else
   let d : Rat := (absR q + 1) / 4194304
   let lo := (q - 1 / 2 - d).ceil
   let hi := (q + 1 / 2 + d).floor
@@ -104,7 +110,7 @@ def fmtIntInterval (q : Rat) : String :=
 def fmtStoredInt (sg : Bool) (s x : Rat) (v : Option Int) : String :=
   match v with
   | none => "ub"
-  | some _ => if !sg && decide (x < 0) then "0" else fmtIntInterval (x / s)
+  | some _ => if !sg && decide (x < 0) then "0" else fmtIntInterval (exactScale s) (x / s)
 
 def convLine (t : NumT) (given : Rat) (rowLen : Nat) (xs : List Rat) : String :=
   let rows := chunks rowLen xs
